@@ -1,11 +1,11 @@
 SPECIFICATION Spec
 CONSTANTS
-  TempoTicks <- TT5
+  TempoTicks <- TT4
   MaxTempo = 4
-  PStarts <- PS4
-  PLens <- PL4
-  MaxPhrases = 3
-  NoteTicks <- T7
+  PStarts <- PS3
+  PLens <- PL3
+  MaxPhrases = 2
+  NoteTicks <- T6
   NoteLens <- NL3
   MaxNotes = 3
   CarryEndIndex = FALSE
